@@ -1937,6 +1937,17 @@ Proof.
       rewrite update_pod_binds_other; [assumption|congruence].
 Qed.
 
+Lemma SP_deliver_pod a c key : api_ok a -> CohI a c -> SP a (cache_step a c (DeliverPod key)) key.
+Proof.
+  intros Hok H Hu. unfold cache_step, cache_step_gen. rewrite (ci_np _ _ H).
+  unfold deliver_pod_gen. cbn [current v_pending_noop]. fold update_pod.
+  unfold unbound in Hu. destruct (aget key (a_pods a)) as [p|] eqn:Ep; [|apply completion_binds].
+  assert (Hkey : p_key p = key).
+  { destruct Hok as [(_ & _ & Hk) _]. apply (proj2 Hk). apply aget_in, Ep. }
+  unfold update_pod, update_pod_gen. destruct (p_term p); [rewrite Hkey; apply completion_binds|].
+  simpl in Hu. rewrite Hu, Hkey. apply completion_binds.
+Qed.
+
 (* ================= StateNodes without a Node carry no pod aggregates (after 7fed8b92b) ================= *)
 Definition NE (c : cache) : Prop :=
   forall X s, aget X (nodes c) = Some s -> sn_node s = None -> empty_agg s.
@@ -2311,4 +2322,311 @@ Proof.
     + destruct (sn_claim s) as [cl|] eqn:Ec; [|discriminate]. right.
       destruct (claim_at_elim a X cl Hok In2) as (E & He & _). rewrite <- He.
       apply (in_map (fun kv => c_pid (snd kv)) _ (c_name cl, cl)). apply aget_in, E.
+Qed.
+
+(* ================= the closing round ================= *)
+Definition RInv (a : api) (c : cache) : Prop := CohI a c /\ NE c /\ Npr c.
+
+Lemma RInv_step a c o : api_ok a -> is_deliver o -> RInv a c -> RInv a (cache_step a c o).
+Proof.
+  intros Hok Ho (H1 & H2 & H3). split; [apply CohI_deliver; assumption|]. split.
+  - apply NE_deliver; assumption.
+  - apply Npr_step, H3.
+Qed.
+
+Definition run_round (a : api) (c : cache) (r : list op) : cache := fold_left (cache_step a) r c.
+
+Lemma round_keeps a (T : cache -> Prop) :
+  (forall c o, RInv a c -> is_deliver o -> T c -> T (cache_step a c o)) -> api_ok a ->
+  forall r c, Forall is_deliver r -> RInv a c -> T c -> T (run_round a c r).
+Proof.
+  intros Hp Hok. induction r as [|o r IH]; intros c Hr Hi Ht; [exact Ht|].
+  inversion Hr; subst. change (T (run_round a (cache_step a c o) r)).
+  apply IH; [assumption|apply RInv_step; assumption|apply Hp; assumption].
+Qed.
+
+Lemma round_reaches a (T : cache -> Prop) (o0 : op) :
+  (forall c o, RInv a c -> is_deliver o -> T c -> T (cache_step a c o)) ->
+  (forall c, RInv a c -> T (cache_step a c o0)) -> api_ok a ->
+  forall r c, Forall is_deliver r -> RInv a c -> In o0 r -> T (run_round a c r).
+Proof.
+  intros Hp He Hok. induction r as [|o r IH]; intros c Hr Hi Hin; [destruct Hin|].
+  inversion Hr; subst. change (T (run_round a (cache_step a c o) r)). destruct Hin as [->|Hin].
+  - apply (round_keeps a T Hp Hok); [assumption|apply RInv_step; assumption|apply He; assumption].
+  - apply IH; [assumption|apply RInv_step; assumption|exact Hin].
+Qed.
+
+Lemma RInv_round a r c : api_ok a -> Forall is_deliver r -> RInv a c -> RInv a (run_round a c r).
+Proof.
+  intros Hok Hr Hi. apply (round_keeps a (RInv a)); try assumption.
+  intros c0 o Hi0 Ho _. apply RInv_step; assumption.
+Qed.
+
+(* every key the API or the cache knows is delivered at least once *)
+Definition covers (a : api) (c : cache) (r : list op) : Prop :=
+  (forall m, In (DeliverNode m) r \/ (aget m (a_nodes a) = None /\ aget m (n2p c) = None)) /\
+  (forall k, In (DeliverClaim k) r \/ (aget k (a_claims a) = None /\ aget k (c2p c) = None)) /\
+  (forall key, In (DeliverPod key) r \/ aget key (binds c) = None).
+
+Lemma cache_step_deliver_node a c m : panicked c = false -> cache_step a c (DeliverNode m) = deliver_node a m c.
+Proof. intros P. unfold cache_step, cache_step_gen. rewrite P. reflexivity. Qed.
+Lemma cache_step_deliver_claim a c k : panicked c = false -> cache_step a c (DeliverClaim k) = deliver_claim a k c.
+Proof. intros P. unfold cache_step, cache_step_gen. rewrite P. reflexivity. Qed.
+
+Lemma round_settled a c r : api_ok a -> RInv a c -> Forall is_deliver r -> covers a c r ->
+  Settled a (run_round a c r).
+Proof.
+  intros Hok Hi Hr (Cn & Cc & Cp).
+  destruct (RInv_round a r c Hok Hr Hi) as (R1 & R2 & R3).
+  constructor; try assumption.
+  - intros m. destruct (Cn m) as [Hin|[E1 E2]].
+    + apply (round_reaches a (fun c' => SN a c' m) (DeliverNode m)); try assumption.
+      * intros c0 o (H0 & _) Ho Hs. apply SN_preserved; assumption.
+      * intros c0 (H0 & _). rewrite cache_step_deliver_node by apply H0. apply SN_deliver_node; assumption.
+    + apply (round_keeps a (fun c' => SN a c' m)); try assumption.
+      * intros c0 o (H0 & _) Ho Hs. apply SN_preserved; assumption.
+      * unfold SN, spec_n2p. rewrite E1. exact E2.
+  - intros k. destruct (Cc k) as [Hin|[E1 E2]].
+    + apply (round_reaches a (fun c' => SC a c' k) (DeliverClaim k)); try assumption.
+      * intros c0 o (H0 & _) Ho Hs. apply SC_preserved; assumption.
+      * intros c0 (H0 & _). rewrite cache_step_deliver_claim by apply H0. apply SC_deliver_claim; assumption.
+    + apply (round_keeps a (fun c' => SC a c' k)); try assumption.
+      * intros c0 o (H0 & _) Ho Hs. apply SC_preserved; assumption.
+      * unfold SC. rewrite E1. exact E2.
+  - intros key. destruct (Cp key) as [Hin|E].
+    + apply (round_reaches a (fun c' => SP a c' key) (DeliverPod key)); try assumption.
+      * intros c0 o (H0 & _) Ho Hs. apply SP_preserved; assumption.
+      * intros c0 (H0 & _). apply SP_deliver_pod; assumption.
+    + apply (round_keeps a (fun c' => SP a c' key)); try assumption.
+      * intros c0 o (H0 & _) Ho Hs. apply SP_preserved; assumption.
+      * intros _. exact E.
+Qed.
+
+Lemma round_equals_fresh_l a c r : api_ok a -> pods_settled a -> RInv a c -> Forall is_deliver r -> covers a c r ->
+  fresh_eq a (view_of (run_round a c r)).
+Proof.
+  intros Hok Hps Hi Hr Hc. pose proof (round_settled a c r Hok Hi Hr Hc) as S.
+  split; [apply settled_nodes_match; assumption|].
+  split; [apply settled_maps_match; assumption|].
+  split; [apply settled_binds_match; assumption|apply settled_pools_match; assumption].
+Qed.
+
+Lemma api_wf_run ops : api_wf (fst (run ops)).
+Proof.
+  unfold run, run_from. assert (G : forall s, api_wf (fst s) -> api_wf (fst (fold_left step ops s))).
+  { induction ops as [|o ops IH]; intros s H; [exact H|]. simpl. apply IH. unfold step, step_gen. cbn [fst].
+    apply api_wf_step, H. }
+  apply G. apply api_wf_0.
+Qed.
+
+Lemma api_step_deliver a o : is_deliver o -> api_step a o = a.
+Proof. destruct o; simpl; try contradiction; reflexivity. Qed.
+
+Lemma run_from_round a c r : Forall is_deliver r -> run_from (a, c) r = (a, run_round a c r).
+Proof.
+  revert c. induction r as [|o r IH]; intros c Hr; [reflexivity|]. inversion Hr; subst.
+  unfold run_from in *. cbn [fold_left]. unfold step at 2, step_gen. cbn [fst snd].
+  rewrite (api_step_deliver a o) by assumption. apply IH. assumption.
+Qed.
+
+Lemma run_app ops r : run (ops ++ r) = run_from (run ops) r.
+Proof. unfold run, run_from. apply fold_left_app. Qed.
+
+(* C11: after any history, once a closing round has delivered every key (in any order, with any
+   duplicates), the cache equals the recomputation from the API objects. *)
+Lemma quiescent_equals_fresh_l : forall (ops r : list op),
+  let a := fst (run ops) in let c := snd (run ops) in
+  uniq_pids a -> pods_settled a -> CohI a c -> NE c ->
+  Forall is_deliver r -> covers a c r ->
+  fresh_eq a (view_of (snd (run (ops ++ r)))).
+Proof.
+  intros ops r a c Hu Hps Hc Hn Hr Hcov.
+  rewrite run_app. replace (run ops) with (a, c) by (unfold a, c; destruct (run ops); reflexivity).
+  rewrite run_from_round by assumption. cbn [snd].
+  apply round_equals_fresh_l; try assumption.
+  - split; [apply api_wf_run|exact Hu].
+  - split; [exact Hc|split; [exact Hn|]]. apply (Npr_run_from current ops (api0, cache0) Npr_0).
+Qed.
+
+(* ================= coherence is reachable: histories in which provider ids are not handed over ================= *)
+Lemma CohI_change_api a a' c : CohI a c ->
+  (forall m X nd m', aget m (n2p c) = Some X -> aget m' (a_nodes a') = Some nd -> trackable nd = true -> epid nd = X -> m' = m) ->
+  (forall k X cl k', aget k (c2p c) = Some X -> X <> "" -> aget k' (a_claims a') = Some cl -> c_pid cl = X -> k' = k) ->
+  (forall m X nd, aget m (n2p c) = Some X -> aget m (a_nodes a') = Some nd -> trackable nd = true) ->
+  (forall k X cl, aget k (c2p c) = Some X -> X <> "" -> aget k (a_claims a') = Some cl -> c_pid cl <> "") ->
+  CohI a' c.
+Proof.
+  intros H O1 O2 O3 O4. constructor; try apply H; assumption.
+Qed.
+
+Lemma CohI_set_mark a b c id : CohI a c -> CohI a (set_mark b c id).
+Proof.
+  intros H. unfold set_mark. destruct (aget id (nodes c)) as [s|] eqn:Es; [|exact H].
+  set (s' := mkSN (sn_node s) (sn_claim s) (sn_pods s) (sn_dsr s) (sn_costs s) (sn_vun s) b).
+  assert (G : forall X s0, aget X (aset id s' (nodes c)) = Some s0 ->
+              exists s1, aget X (nodes c) = Some s1 /\ sn_node s0 = sn_node s1 /\ sn_claim s0 = sn_claim s1).
+  { intros X s0. rewrite aget_aset. destruct (X =s id) eqn:E; seq.
+    - intros [= <-]. exists s. auto.
+    - intros F. exists s0. auto. }
+  assert (G' : forall X s1, aget X (nodes c) = Some s1 ->
+              exists s0, aget X (aset id s' (nodes c)) = Some s0 /\ sn_node s0 = sn_node s1 /\ sn_claim s0 = sn_claim s1).
+  { intros X s1 F. rewrite aget_aset. destruct (X =s id) eqn:E; seq.
+    - exists s'. assert (s1 = s) by congruence. subst. auto.
+    - exists s1. auto. }
+  constructor; c_simpl; try apply H.
+  - intros m X F. destruct (ci_n2p _ _ H _ _ F) as (Hx & s1 & nd & F1 & F2 & F3). split; [exact Hx|].
+    destruct (G' _ _ F1) as (s0 & E0 & N0 & _). exists s0, nd. repeat split; congruence.
+  - intros X s0 nd F1 F2. destruct (G _ _ F1) as (s1 & E1 & N1 & _). eapply (ci_nback _ _ H); eauto. congruence.
+  - intros k X F Hx. destruct (ci_c2p _ _ H _ _ F Hx) as (s1 & cl & F1 & F2 & F3).
+    destruct (G' _ _ F1) as (s0 & E0 & _ & C0). exists s0, cl. repeat split; congruence.
+  - intros X s0 cl F1 F2. destruct (G _ _ F1) as (s1 & E1 & _ & C1). eapply (ci_cback _ _ H); eauto. congruence.
+  - intros X s0 F1. destruct (G _ _ F1) as (s1 & E1 & N1 & C1).
+    pose proof (ci_ident _ _ H _ _ E1) as Hi. unfold has_identity in *. rewrite N1, C1. exact Hi.
+  - intros X s0 F1. destruct (G _ _ F1) as (s1 & E1 & _). eapply (ci_keys _ _ H); eauto.
+Qed.
+
+Lemma NE_set_mark b c id : NE c -> NE (set_mark b c id).
+Proof.
+  intros H. unfold set_mark. destruct (aget id (nodes c)) as [s|] eqn:Es; [|exact H].
+  apply (NE_set (upr_c _ _ c)); [exact H|]. cbn [sn_node]. intros Hn. apply (H _ _ Es Hn).
+Qed.
+
+Lemma marks_keep a b ids c : CohI a c /\ NE c -> CohI a (fold_left (set_mark b) ids c) /\ NE (fold_left (set_mark b) ids c).
+Proof.
+  revert c. induction ids as [|i ids IH]; intros c [H1 H2]; [auto|]. simpl. apply IH.
+  split; [apply CohI_set_mark, H1|apply NE_set_mark, H2].
+Qed.
+
+(* what the environment must respect when it writes a Node / NodeClaim: provider ids stay unique, an id the
+   cache associates with one name is not given to another, a tracked Node stays trackable and a launched
+   NodeClaim stays launched *)
+Definition op_ok (a : api) (c : cache) (o : op) : Prop :=
+  match o with
+  | SetNode nd =>
+      uniq_pids (api_step a o) /\
+      (trackable nd = true -> forall m, aget m (n2p c) = Some (epid nd) -> m = n_name nd) /\
+      (aget (n_name nd) (n2p c) <> None -> trackable nd = true)
+  | SetClaim cl =>
+      uniq_pids (api_step a o) /\
+      (c_pid cl <> "" -> forall k, aget k (c2p c) = Some (c_pid cl) -> k = c_name cl) /\
+      (forall X, aget (c_name cl) (c2p c) = Some X -> X <> "" -> c_pid cl <> "")
+  | _ => True
+  end.
+
+Fixpoint hist_ok_from (s : api * cache) (ops : list op) : Prop :=
+  match ops with
+  | [] => True
+  | o :: t => op_ok (fst s) (snd s) o /\ hist_ok_from (step s o) t
+  end.
+Definition hist_ok (ops : list op) : Prop := hist_ok_from (api0, cache0) ops.
+
+Definition HInv (s : api * cache) : Prop := api_ok (fst s) /\ CohI (fst s) (snd s) /\ NE (snd s).
+
+Lemma uniq_pids_adel_nodes a k : uniq_pids a -> uniq_pids (mkApi (adel k (a_nodes a)) (a_claims a) (a_pods a)).
+Proof.
+  intros (U1 & U2 & U3). assert (G : forall m n, aget m (adel k (a_nodes a)) = Some n -> aget m (a_nodes a) = Some n).
+  { intros m n. rewrite aget_adel. destruct (m =s k); [discriminate|auto]. }
+  split; [|split]; cbn [a_nodes a_claims].
+  - intros m1 m2 n1 n2 E1 E2. eapply U1; eauto.
+  - exact U2.
+  - intros m n E. eapply U3; eauto.
+Qed.
+
+Lemma uniq_pids_adel_claims a k : uniq_pids a -> uniq_pids (mkApi (a_nodes a) (adel k (a_claims a)) (a_pods a)).
+Proof.
+  intros (U1 & U2 & U3). assert (G : forall m n, aget m (adel k (a_claims a)) = Some n -> aget m (a_claims a) = Some n).
+  { intros m n. rewrite aget_adel. destruct (m =s k); [discriminate|auto]. }
+  split; [|split]; cbn [a_nodes a_claims]; [exact U1| |exact U3].
+  intros k1 k2 c1 c2 E1 E2. eapply U2; eauto.
+Qed.
+
+Lemma HInv_step s o : HInv s -> op_ok (fst s) (snd s) o -> HInv (step s o).
+Proof.
+  destruct s as [a c]. intros ([Hwf Hu] & Hc & Hn) Hop. cbn [fst snd] in *.
+  unfold HInv, step, step_gen. cbn [fst snd].
+  assert (Hwf' : api_wf (api_step a o)) by (apply api_wf_step, Hwf).
+  destruct o; cbn [op_ok] in Hop.
+  - (* SetNode *)
+    destruct Hop as (Hu' & Hown & Htr).
+    unfold cache_step, cache_step_gen. rewrite (ci_np _ _ Hc).
+    split; [split; assumption|]. split; [|exact Hn].
+    apply (CohI_change_api a); [exact Hc| | | |]; cbn [api_step a_nodes a_claims].
+    + intros m X nd m'. rewrite aget_aset. destruct (m' =s n_name n) eqn:E; seq.
+      * intros F [= <-] Ht He. symmetry. apply Hown; [exact Ht|congruence].
+      * eapply (ci_own_n _ _ Hc).
+    + eapply (ci_own_c _ _ Hc).
+    + intros m X nd. rewrite aget_aset. destruct (m =s n_name n) eqn:E; seq.
+      * intros F [= <-]. apply Htr. congruence.
+      * eapply (ci_track _ _ Hc).
+    + eapply (ci_launched _ _ Hc).
+  - (* DelNode *)
+    unfold cache_step, cache_step_gen. rewrite (ci_np _ _ Hc).
+    split; [split; [exact Hwf'|apply uniq_pids_adel_nodes, Hu]|]. split; [|exact Hn].
+    apply (CohI_change_api a); [exact Hc| | | |]; cbn [api_step a_nodes a_claims].
+    + intros m X nd m'. rewrite aget_adel. destruct (m' =s name); [discriminate|]. eapply (ci_own_n _ _ Hc).
+    + eapply (ci_own_c _ _ Hc).
+    + intros m X nd. rewrite aget_adel. destruct (m =s name); [discriminate|]. eapply (ci_track _ _ Hc).
+    + eapply (ci_launched _ _ Hc).
+  - (* SetClaim *)
+    destruct Hop as (Hu' & Hown & Hl).
+    unfold cache_step, cache_step_gen. rewrite (ci_np _ _ Hc).
+    split; [split; assumption|]. split; [|exact Hn].
+    apply (CohI_change_api a); [exact Hc| | | |]; cbn [api_step a_nodes a_claims].
+    + eapply (ci_own_n _ _ Hc).
+    + intros k X cl0 k'. rewrite aget_aset. destruct (k' =s c_name cl) eqn:E; seq.
+      * intros F Hx [= <-] He. symmetry. apply Hown; congruence.
+      * eapply (ci_own_c _ _ Hc).
+    + eapply (ci_track _ _ Hc).
+    + intros k X cl0. rewrite aget_aset. destruct (k =s c_name cl) eqn:E; seq.
+      * intros F Hx [= <-]. eapply Hl; eauto.
+      * eapply (ci_launched _ _ Hc).
+  - (* DelClaim *)
+    unfold cache_step, cache_step_gen. rewrite (ci_np _ _ Hc).
+    split; [split; [exact Hwf'|apply uniq_pids_adel_claims, Hu]|]. split; [|exact Hn].
+    apply (CohI_change_api a); [exact Hc| | | |]; cbn [api_step a_nodes a_claims].
+    + eapply (ci_own_n _ _ Hc).
+    + intros k X cl0 k'. rewrite aget_adel. destruct (k' =s name); [discriminate|]. eapply (ci_own_c _ _ Hc).
+    + eapply (ci_track _ _ Hc).
+    + intros k X cl0. rewrite aget_adel. destruct (k =s name); [discriminate|]. eapply (ci_launched _ _ Hc).
+  - (* SetPod *)
+    unfold cache_step, cache_step_gen. rewrite (ci_np _ _ Hc).
+    split; [split; [exact Hwf'|exact Hu]|]. split; [|exact Hn].
+    apply (CohI_change_api a); try exact Hc; cbn [api_step a_nodes a_claims]; apply Hc.
+  - (* DelPod *)
+    unfold cache_step, cache_step_gen. rewrite (ci_np _ _ Hc).
+    split; [split; [exact Hwf'|exact Hu]|]. split; [|exact Hn].
+    apply (CohI_change_api a); try exact Hc; cbn [api_step a_nodes a_claims]; apply Hc.
+  - split; [split; assumption|]. split; [apply CohI_deliver; [split; assumption|exact I|exact Hc]|].
+    apply NE_deliver; [exact Hc|exact I|exact Hn].
+  - split; [split; assumption|]. split; [apply CohI_deliver; [split; assumption|exact I|exact Hc]|].
+    apply NE_deliver; [exact Hc|exact I|exact Hn].
+  - split; [split; assumption|]. split; [apply CohI_deliver; [split; assumption|exact I|exact Hc]|].
+    apply NE_deliver; [exact Hc|exact I|exact Hn].
+  - split; [split; assumption|]. unfold cache_step, cache_step_gen. rewrite (ci_np _ _ Hc). apply marks_keep. auto.
+  - split; [split; assumption|]. unfold cache_step, cache_step_gen. rewrite (ci_np _ _ Hc). apply marks_keep. auto.
+Qed.
+
+Lemma HInv_0 : HInv (api0, cache0).
+Proof.
+  split; [split; [apply api_wf_0|]|split].
+  - repeat split; intros; discriminate.
+  - constructor; simpl; intros; discriminate || reflexivity.
+  - intros X s F. discriminate.
+Qed.
+
+Lemma hist_ok_inv ops : forall s, HInv s -> hist_ok_from s ops -> HInv (fold_left step ops s).
+Proof.
+  induction ops as [|o ops IH]; intros s Hs Hh; [exact Hs|]. destruct Hh as [Ho Hh]. simpl.
+  apply IH; [apply HInv_step; assumption|exact Hh].
+Qed.
+
+(* C11 for whole histories *)
+Lemma quiescent_equals_fresh_hist_l : forall (ops r : list op),
+  hist_ok ops -> pods_settled (fst (run ops)) -> Forall is_deliver r ->
+  covers (fst (run ops)) (snd (run ops)) r ->
+  fresh_eq (fst (run ops)) (view_of (snd (run (ops ++ r)))).
+Proof.
+  intros ops r Hh Hps Hr Hc.
+  destruct (hist_ok_inv ops (api0, cache0) HInv_0 Hh) as ([_ Hu] & Hci & Hne).
+  apply quiescent_equals_fresh_l; assumption.
 Qed.
